@@ -9,7 +9,7 @@ theorem incLoop_spec (need size : Nat) : ∀ (fuel inc : Nat), need < size + inc
   | f + 1, inc, h => by
     unfold incLoop
     split
-    · exact incLoop_spec need size f (inc + BUF_STEP) (by simp only [BUF_STEP] at h ⊢; omega)
+    · exact incLoop_spec need size f (inc + BUF_STEP) (by simp only [BUF_STEP, Generated.LYJSON_STRING_BUF_STEP] at h ⊢; omega)
     · omega
 
 theorem incLoop_ge (need size : Nat) : ∀ (fuel inc : Nat), inc ≤ incLoop need size fuel inc
@@ -42,7 +42,7 @@ theorem prepare_ok {s : St} (h : Inv s) : ∃ s', s.prepare = some s' ∧ s'.out
   by_cases hg : s1.out.length + s1.pending.length + 4 ≥ s1.size
   · simp only [hg, if_true]
     have hi := incLoop_spec (s1.out.length + s1.pending.length + 4) s1.size (s1.out.length + s1.pending.length + 4) BUF_STEP
-      (by simp only [BUF_STEP]; omega)
+      (by simp only [BUF_STEP, Generated.LYJSON_STRING_BUF_STEP]; omega)
     have hge := incLoop_ge (s1.out.length + s1.pending.length + 4) s1.size (s1.out.length + s1.pending.length + 4) BUF_STEP
     generalize incLoop (s1.out.length + s1.pending.length + 4) s1.size (s1.out.length + s1.pending.length + 4) BUF_STEP = inc at hi hge
     have htake : s1.out.take (s1.size + inc) = s1.out := List.take_of_length_le (by omega)
